@@ -76,8 +76,11 @@ func (a *HMACAuth) Verify(r *http.Request, requestPath string, body []byte) erro
 		return ErrUnauthorized
 	}
 	t := time.Unix(ts, 0).UTC()
+	// One clock reading per request: the tolerance check and the nonce lookup
+	// must agree on whether the signed timestamp is still inside its window.
+	receivedAt := now().UTC()
 	if a.Tolerance > 0 {
-		d := now().UTC().Sub(t)
+		d := receivedAt.Sub(t)
 		if d < -a.Tolerance || d > a.Tolerance {
 			return ErrUnauthorized
 		}
@@ -88,7 +91,7 @@ func (a *HMACAuth) Verify(r *http.Request, requestPath string, body []byte) erro
 	} else {
 		a.nonce.setNow(now)
 	}
-	if !a.nonce.seenOnce(nonce, t.Add(a.Tolerance)) {
+	if !a.nonce.seenOnceAt(nonce, t.Add(a.Tolerance), receivedAt) {
 		return ErrUnauthorized
 	}
 
@@ -163,6 +166,13 @@ func (c *nonceCache) setNow(now func() time.Time) {
 }
 
 func (c *nonceCache) seenOnce(nonce string, expiresAt time.Time) bool {
+	return c.seenOnceAt(nonce, expiresAt, c.now().UTC())
+}
+
+// seenOnceAt records nonce until expiresAt and reports whether it was unseen at
+// instant now. An entry stays live up to and including its expiry instant,
+// because the tolerance check still admits a request received exactly then.
+func (c *nonceCache) seenOnceAt(nonce string, expiresAt time.Time, now time.Time) bool {
 	if nonce == "" {
 		return false
 	}
@@ -171,14 +181,13 @@ func (c *nonceCache) seenOnce(nonce string, expiresAt time.Time) bool {
 	defer c.mu.Unlock()
 
 	// Opportunistic cleanup.
-	now := c.now().UTC()
 	for k, exp := range c.m {
-		if !now.Before(exp) {
+		if now.After(exp) {
 			delete(c.m, k)
 		}
 	}
 
-	if exp, ok := c.m[nonce]; ok && now.Before(exp) {
+	if exp, ok := c.m[nonce]; ok && !now.After(exp) {
 		return false
 	}
 	c.m[nonce] = expiresAt.UTC()
